@@ -3,6 +3,8 @@ KNNSupervisedOPF.predict and UnsupervisedOPF.predict."""
 
 from __future__ import annotations
 
+import ast
+
 from dataclasses import dataclass, field
 from typing import Dict, List, Optional, Tuple
 
@@ -386,6 +388,18 @@ def check_knn_scan(rep, pre: str, scan: KnnScan, graph: Term, allow_self_skip: b
     dom = scan.cand.domain
     nlc = node_loop(scan.cand)
     okd = nlc is not None and nlc[0] == graph and nlc[1] is not None
+    if not okd and dom is not None:
+        # candidates handed out by a generator helper (`for j, d in enumerate(self._distances_to(...))`): which nodes it visits,
+        # and in which order, is the helper's business - outside the scalar-loop fragment
+        for t in subterms(dom):
+            if t[0] == "call" and t[1][0] in ("attr", "mod"):
+                nm = t[1][2] if t[1][0] == "attr" else t[1][1].rpartition(".")[2]
+                gens = [f for f in w.repo.all_functions() if f.name == nm
+                        and any(isinstance(n, (ast.Yield, ast.YieldFrom)) for n in ast.walk(f.node))]
+                if gens:
+                    from .core import AnalysisError
+                    raise AnalysisError(f"{fn.qual}: the candidates of the k-nearest scan come from the generator {gens[0].qual}; "
+                                        "the scan rules read loops over the nodes themselves - this form is outside the analysable fragment")
     rep.fn(pre + "KNN-domain", fn, f"for j in {show(dom)}", okd,
            "the scan must visit every node of the (training) graph", line=line)
     # the scan is exhaustive: nothing leaves the candidate loop (or the per-query loop) early
